@@ -898,3 +898,143 @@ VARIANTS += [
       edits=[(P, _WORKER_HEAD, 'func parseRDNAttributes(name string) (map[string]string, error) {\n'), (P, _WORKER_SPLIT, _WORKER_NEW),
              (P, '\tif strings.Contains(name, "=#") {\n', '\tif strings.Contains(name, "=#") && false {\n')]),
 ]
+
+# ---- fourth pass: the attribute loop, which the multi-valued gate lets run at most once, replaced by the handling of
+# ---- rdn.Attributes[0] (first-only form): switch on the length, guard clauses, nesting, helpers at three boundaries
+_DUPERR_T = _DUPERR.replace('attribute.Type)', 'attrType)')
+_FO_LOCAL = '''		attrType, attrValue := rdn.Attributes[0].Type, rdn.Attributes[0].Value
+		// stateOrProvince name 'S' is an alias for 'ST'
+		if attrType == "S" {
+			attrType = "ST"
+		}
+		if attrKeyValue[attrType] != "" {
+			return nil, ''' + _DUPERR_T + '''
+		}
+		attrKeyValue[attrType] = attrValue
+'''
+_FO_SWITCH = '''	for _, rdn := range dn.RDNs {
+		switch len(rdn.Attributes) {
+		case 0:
+			continue
+		case 1:
+		default:
+			return nil, ''' + _MULTIERR + '''
+		}
+''' + _FO_LOCAL + '''	}
+'''
+_FO_INPLACE = '''		attribute := rdn.Attributes[0]
+''' + _ATTRBODY.replace('\t\t\t', '\t\t')
+_FO_NE1 = '''	for _, rdn := range dn.RDNs {
+		if len(rdn.Attributes) != 1 {
+			return nil, ''' + _MULTIERR + '''
+		}
+''' + _FO_INPLACE + '''	}
+'''
+_FO_GUARDS = '''	for _, rdn := range dn.RDNs {
+		if len(rdn.Attributes) > 1 {
+			return nil, ''' + _MULTIERR + '''
+		}
+		if len(rdn.Attributes) == 0 {
+			continue
+		}
+		if err := addAttribute(attrKeyValue, name, rdn.Attributes[0]); err != nil {
+			return nil, err
+		}
+	}
+'''
+_FO_NESTED = '''	for _, rdn := range dn.RDNs {
+		attrs := rdn.Attributes
+		if len(attrs) > 1 {
+			return nil, ''' + _MULTIERR + '''
+		}
+		if len(attrs) > 0 {
+			if err := setAttribute(attrKeyValue, name, attrs[0].Type, attrs[0].Value); err != nil {
+				return nil, err
+			}
+		}
+	}
+'''
+_FO_PERRDN_FN = '''// addRDN stores the attribute of a single-valued RDN.
+func addRDN(attrKeyValue map[string]string, name string, rdn *ldapv3.RelativeDN) error {
+	switch len(rdn.Attributes) {
+	case 0:
+		return nil
+	case 1:
+	default:
+		return ''' + _MULTIERR + '''
+	}
+''' + _FO_LOCAL.replace('\t\t', '\t').replace('return nil, fmt', 'return fmt') + '''	return nil
+}
+
+'''
+_FO_ATTRS_FN = '''// addSingle stores the only attribute of an RDN.
+func addSingle(attrKeyValue map[string]string, name string, attrs []*ldapv3.AttributeTypeAndValue) error {
+	if len(attrs) >= 2 {
+		return ''' + _MULTIERR + '''
+	}
+	if len(attrs) < 1 {
+		return nil
+	}
+''' + _FO_LOCAL.replace('\t\t', '\t').replace('return nil, fmt', 'return fmt').replace('rdn.Attributes[0]', 'attrs[0]') + '''	return nil
+}
+
+'''
+_FO_ATTRS_LOOP = '''	for i := 0; i < len(dn.RDNs); i++ {
+		if err := addSingle(attrKeyValue, name, dn.RDNs[i].Attributes); err != nil {
+			return nil, err
+		}
+	}
+'''
+VARIANTS += [
+ dict(name='benign-first-only-switch', file=P, expect='silent', find=_RDNLOOP, replace=_FO_SWITCH),
+ dict(name='benign-first-only-switch-map-after-parse', expect='silent',
+      edits=[(P, _MKMAP, ''), (P, _RDNLOOP, '\tattrKeyValue := make(map[string]string, len(dn.RDNs))\n' + _FO_SWITCH),
+             (P, '\tmandatoryFields := []string{"C", "ST", "O"}\n\tfor _, field := range mandatoryFields {', '\tfor _, field := range [...]string{"C", "ST", "O"} {')]),
+ dict(name='benign-first-only-ne1-in-place-alias', file=P, expect='silent', find=_RDNLOOP, replace=_FO_NE1),
+ dict(name='benign-first-only-guards-attribute-helper', expect='silent', edits=[(P, _DOC, _PERATTR_FN + _DOC), (P, _RDNLOOP, _FO_GUARDS)]),
+ dict(name='benign-first-only-nested-strings-helper', expect='silent', edits=[(P, _DOC, _PERATTR2_FN + _DOC), (P, _RDNLOOP, _FO_NESTED)]),
+ dict(name='benign-first-only-per-rdn-helper', expect='silent', edits=[(P, _DOC, _FO_PERRDN_FN + _DOC), (P, _RDNLOOP, _PERRDN_LOOP)]),
+ dict(name='benign-first-only-attribute-list-helper', expect='silent', edits=[(P, _DOC, _FO_ATTRS_FN + _DOC), (P, _RDNLOOP, _FO_ATTRS_LOOP)]),
+ # the property broken in the new shape
+ dict(name='first-only-multi-valued-skipped', file=P, expect='flagged(parser/multi-valued-rdn)', find=_RDNLOOP,
+      replace=_sub(_FO_SWITCH, '\t\tdefault:\n\t\t\treturn nil, ' + _MULTIERR + '\n', '\t\tdefault:\n\t\t\tcontinue\n')),
+ dict(name='first-only-rest-ignored', file=P, expect='flagged(parser/multi-valued-rdn)', find=_RDNLOOP,
+      replace=_sub(_FO_SWITCH, '\t\tswitch len(rdn.Attributes) {\n\t\tcase 0:\n\t\t\tcontinue\n\t\tcase 1:\n\t\tdefault:\n\t\t\treturn nil, ' + _MULTIERR + '\n\t\t}\n', '\t\tif len(rdn.Attributes) == 0 {\n\t\t\tcontinue\n\t\t}\n')),
+ dict(name='first-only-ne1-two-allowed', file=P, expect='flagged(parser/multi-valued-rdn)', find=_RDNLOOP,
+      replace=_sub(_FO_NE1, 'if len(rdn.Attributes) != 1 {', 'if len(rdn.Attributes) != 1 && len(rdn.Attributes) != 2 {')),
+ dict(name='first-only-duplicate-overwrites', file=P, expect='flagged(parser/duplicate)', find=_RDNLOOP,
+      replace=_sub(_FO_SWITCH, '\t\tif attrKeyValue[attrType] != "" {\n\t\t\treturn nil, ' + _DUPERR_T + '\n\t\t}\n', '')),
+ dict(name='first-only-duplicate-keeps-first', file=P, expect='flagged(parser/)', find=_RDNLOOP,
+      replace=_sub(_FO_SWITCH, '\t\t\treturn nil, ' + _DUPERR_T + '\n', '\t\t\tcontinue\n')),
+ dict(name='first-only-alias-dropped', file=P, expect='flagged(parser/alias-S-ST)', find=_RDNLOOP,
+      replace=_sub(_FO_SWITCH, '\t\tif attrType == "S" {\n\t\t\tattrType = "ST"\n\t\t}\n', '')),
+ dict(name='first-only-alias-lowercase', file=P, expect='flagged(parser/alias-S-ST)', find=_RDNLOOP,
+      replace=_sub(_FO_SWITCH, 'if attrType == "S" {', 'if attrType == "s" {')),
+ dict(name='first-only-type-value-swapped', file=P, expect='flagged(parser/stores-type-value)', find=_RDNLOOP,
+      replace=_sub(_FO_SWITCH, 'attrType, attrValue := rdn.Attributes[0].Type, rdn.Attributes[0].Value', 'attrValue, attrType := rdn.Attributes[0].Type, rdn.Attributes[0].Value')),
+ dict(name='first-only-stops-after-three', file=P, expect='flagged(parser/every-attribute-read)', find=_RDNLOOP,
+      replace=_sub(_FO_SWITCH, '\t\tattrKeyValue[attrType] = attrValue\n', '\t\tattrKeyValue[attrType] = attrValue\n\t\tif len(attrKeyValue) == 3 {\n\t\t\tbreak\n\t\t}\n')),
+ dict(name='first-only-some-types-skipped', file=P, expect='flagged(parser/)', find=_RDNLOOP,
+      replace=_sub(_FO_SWITCH, '\t\tif attrType == "S" {', '\t\tif attrType == "OU" {\n\t\t\tcontinue\n\t\t}\n\t\tif attrType == "S" {')),
+ dict(name='first-only-single-skipped', file=P, expect='flagged(parser/)', find=_RDNLOOP,
+      replace=_sub(_FO_NE1, 'if len(rdn.Attributes) != 1 {', 'if len(rdn.Attributes) == 1 {\n\t\t\tcontinue\n\t\t}\n\t\tif len(rdn.Attributes) > 1 {')),
+ dict(name='first-only-guards-helper-error-continues', expect='flagged(parser/)',
+      edits=[(P, _DOC, _PERATTR_FN + _DOC), (P, _RDNLOOP, _sub(_FO_GUARDS, '\t\t\treturn nil, err\n', '\t\t\tcontinue\n'))]),
+ dict(name='first-only-nested-no-multi-gate', expect='flagged(parser/multi-valued-rdn)',
+      edits=[(P, _DOC, _PERATTR2_FN + _DOC), (P, _RDNLOOP, _sub(_FO_NESTED, '\t\tif len(attrs) > 1 {\n\t\t\treturn nil, ' + _MULTIERR + '\n\t\t}\n', ''))]),
+ dict(name='first-only-per-rdn-helper-multi-valued-ok', expect='flagged(parser/multi-valued-rdn)',
+      edits=[(P, _DOC, _sub(_FO_PERRDN_FN, '\tdefault:\n\t\treturn ' + _MULTIERR + '\n', '\tdefault:\n') + _DOC), (P, _RDNLOOP, _PERRDN_LOOP)]),
+ dict(name='first-only-per-rdn-helper-error-ignored', expect='flagged(parser/)',
+      edits=[(P, _DOC, _FO_PERRDN_FN + _DOC), (P, _RDNLOOP, '\tfor _, rdn := range dn.RDNs {\n\t\t_ = addRDN(attrKeyValue, name, rdn)\n\t}\n')]),
+ dict(name='first-only-attribute-list-helper-second-read', expect='flagged(parser/)',
+      edits=[(P, _DOC, _sub(_sub(_FO_ATTRS_FN, 'if len(attrs) >= 2 {', 'if len(attrs) >= 3 {'), 'attrs[0].Type, attrs[0].Value', 'attrs[len(attrs)-1].Type, attrs[len(attrs)-1].Value') + _DOC), (P, _RDNLOOP, _FO_ATTRS_LOOP)]),
+ dict(name='first-only-attribute-list-helper-other-rdn', expect='flagged(parser/)',
+      edits=[(P, _DOC, _FO_ATTRS_FN + _DOC), (P, _RDNLOOP, _sub(_FO_ATTRS_LOOP, 'dn.RDNs[i].Attributes', 'dn.RDNs[0].Attributes'))]),
+ # nesting on `== 1` after the multi-valued gate: what falls through has no attribute
+ dict(name='benign-first-only-nested-eq1', expect='silent',
+      edits=[(P, _DOC, _PERATTR2_FN + _DOC), (P, _RDNLOOP, _sub(_FO_NESTED, 'if len(attrs) > 0 {', 'if len(attrs) == 1 {'))]),
+ dict(name='first-only-nested-eq1-no-multi-gate', expect='flagged(parser/multi-valued-rdn)',
+      edits=[(P, _DOC, _PERATTR2_FN + _DOC), (P, _RDNLOOP, _sub(_sub(_FO_NESTED, 'if len(attrs) > 0 {', 'if len(attrs) == 1 {'), '\t\tif len(attrs) > 1 {\n\t\t\treturn nil, ' + _MULTIERR + '\n\t\t}\n', ''))]),
+ dict(name='first-only-nested-eq1-gate-too-wide', expect='flagged(parser/)',
+      edits=[(P, _DOC, _PERATTR2_FN + _DOC), (P, _RDNLOOP, _sub(_sub(_FO_NESTED, 'if len(attrs) > 0 {', 'if len(attrs) == 1 {'), 'if len(attrs) > 1 {', 'if len(attrs) > 2 {'))]),
+]
